@@ -89,6 +89,65 @@ CHECKS = {
         design_ref='DESIGN.md 3 C16',
         note='tlapm + SMT; TLC; beyond the enumerated range the code is sampled.',
         technique='TLAPS proof of the scale + TLC trace validation of point_difference_to_imps / score_to_imp'),
+    'C12': dict(
+        category='model_checking',
+        text='JsonLog.tla: the streaming writer machine (every open/write^n/close sequence is a well-formed document, '
+             'TLC), the content of an item as a function of the written values through Notation.tla, the published '
+             'schema transcribed, and the round-trip relation. Real JsonLogWriter sessions (0..12 records, every kind of '
+             'contract, 0..13 tricks, arbitrary Unicode names/ids, with/without dda, failed writes, write before open) are '
+             'recorded chunk by chunk, parsed back with JsonParser (logs and board settings) and validated by '
+             'JsonLogTrace; json.loads and jsonschema on the SHIPPED schema decide the two non-TLA+ clauses.',
+        design_ref='DESIGN.md 3 C12',
+        note=TRUST + 'json.loads; jsonschema (offline wheel, installed by bin/setup); record space sampled (seeded).',
+        technique='TLA+ writer machine (TLC) + trace validation of writer chunks and parser read-back'),
+    'C14': dict(
+        category='model_checking',
+        text='Notation.tla gives the canonical encodings (PBN deal from any first seat, 52-slot vectors, JSON lists); TLC '
+             'checks the hand texts injective on all subsets of a reduced pack; every real encoder/decoder call on seeded '
+             'deals (uniform, voids forced in each suit position, one-suit hands, partial deals; decode-mutate-decode '
+             'sequences; numpy dtypes) is validated by NotationTrace (decoders relationally). Sampled at full size.',
+        design_ref='DESIGN.md 3 C14',
+        note=TRUST + 'the 5.4e28 deals are sampled; decoders are fed the text the real encoder produced (validated in the same run).',
+        technique='TLA+ canonical encodings + TLC trace validation of the real encoders/decoders'),
+    'C15': dict(
+        category='model_checking',
+        text='Complete finite domains in both tiers: TLC checks every notation table injective; every converter of Card, '
+             'Bid, Player, Pair, Vul, Suit and Contract is called on every value (52x52 card comparisons, all contracts x '
+             'vulnerability x declarer parsed in two nestings) and each result is validated against Notation.tla.',
+        design_ref='DESIGN.md 3 C15',
+        note=TRUST + 'none beyond the tables of Notation.tla.',
+        technique='TLA+ tables (TLC injectivity) + complete-domain trace validation of the converters'),
+    'C17': dict(
+        category='model_checking',
+        text='JSON half as C12 with JsonBoardSettingWriter. PBN half: Pbn.tla generates every import layout up to the '
+             'bound (tag orders, extra tags/table rows/duplicates, header lines, blank-line runs before/between/after) and '
+             'TLC checks the abstract parser returns the games written; every layout is rendered with seeded boards '
+             '(any first seat, any accepted vulnerability spelling, ids from the stated alphabet incl. runs of spaces, '
+             'LF/CRLF, semi-empty lines, StringIO and real files) and parsed by the real PbnParser; seeded layouts beyond '
+             'the bound are validated by PbnTrace.',
+        design_ref='DESIGN.md 3 C17',
+        note=TRUST + 'PBN comments (; and {}) are not generated.',
+        technique='TLA+ layout generation (TLC) replayed on the real parser + trace validation'),
+    'C18': dict(
+        category='model_checking',
+        text='Pbn.tla composes the writer (15 tags + separator) with the parser (TLC: n results read back as n games); '
+             'real PbnWriter output for sequences of 1..5 results (every contract, repeated board numbers, names from the '
+             'stated alphabet) is validated line by line against Notation.tla, every line <= 255, and the real parser '
+             'read-back (parse_all and parse_board_settings) against what was written.',
+        design_ref='DESIGN.md 3 C18',
+        note=TRUST + 'sequences are seeded samples.',
+        technique='TLA+ writer/parser composition (TLC) + trace validation of PbnWriter lines and read-back'),
+    'C19': dict(
+        category='model_checking',
+        text='Framing.tla: byte-at-a-time reader, every chunking and every close position, safety (prefix, intact, in '
+             'order) and liveness (after close the reader reaches error; regression config shows the pinned spin); every '
+             'terminal scenario TLC reaches is replayed on the real receive_message with a scripted socket (spin detection '
+             'without time-outs). Messages: all 38 calls x 4 seats x case variants x alert suffixes, 52 cards x 4 seats x 2 '
+             'notations x case variants, hands 0..13, headers as Server.deal queues them, team and connection lines, all '
+             'validated against Notation.tla.',
+        design_ref='DESIGN.md 3 C19',
+        note=TRUST + 'scripted socket semantics; case variants applied to client-to-server messages only.',
+        technique='TLA+ model checking incl. liveness (TLC) + replay of all scenarios and trace validation'),
 }
 
 NOT_YET = {}
